@@ -604,6 +604,40 @@ pub fn sites(tier: Tier) -> Vec<Site> {
         ));
     }
 
+    // 3f. no memory between calls: every ordered pair of reference frames (B1 of every kind, a few broken
+    // ones) decoded back to back on one thread - the second outcome is the one the frame has on its own
+    {
+        let mut corpus: Vec<(String, bool, Vec<u8>)> = fr.iter().filter(|f| f.0.ends_with("B1") && !f.0.contains(" x")).cloned().collect();
+        for c in [true, false] {
+            corpus.push(("unknown type".into(), c, vec![if c { 1 } else { 4 }, 200, 0, 0]));
+            corpus.push(("bad CIM".into(), c, vec![if c { 2 } else { 8 }, 64, 0, 0, 9, 0, 0, 0]));
+            corpus.push(("short".into(), c, vec![if c { 2 } else { 8 }, 3, 0]));
+        }
+        let corpus = Arc::new(corpus);
+        let n = (corpus.len() * corpus.len()) as u64;
+        sites.push(Site::new("decode-pairs", n,
+            "every ordered pair of (B1 reference frame of every kind in both modes + 6 broken frames) decoded back to back on one thread",
+            move |i, acc| {
+                acc.eval();
+                let (na, ca, fa) = &corpus[(i as usize) / corpus.len()];
+                let (nb, cb, fb) = &corpus[(i as usize) % corpus.len()];
+                let dec = |c: bool, f: &[u8]| {
+                    let codec = Codec::new(mode_of(c));
+                    let mut b = BytesMut::from(f);
+                    let r = guard(|| codec.decode(&mut b));
+                    (format!("{r:?}"), b.len())
+                };
+                let alone = dec(*cb, fb);
+                let _ = dec(*ca, fa);
+                let after = dec(*cb, fb);
+                if alone == after { acc.class("pair-agrees"); acc.nontrivial(); }
+                else {
+                    acc.violate(i, format!("C04|decode|history-dependent|type-{}", fb.get(1).copied().unwrap_or(0)), format!("{nb} decodes to {} right after {na}, to {} otherwise", after.0.chars().take(100).collect::<String>(), alone.0.chars().take(100).collect::<String>()), json!({"site": "decode-pairs", "index": i}));
+                }
+            },
+        ));
+    }
+
     // 4. all short buffers over a 16-symbol alphabet
     let maxlen = if tier == Tier::Thorough { 6 } else { 5 };
     let mut count = 0u64;
